@@ -135,11 +135,14 @@ func (hs *serverHandshakeStateGM) readClientHello() (isResume bool, err error) {
 		}
 	}
 
-	c.vers, ok = c.config.mutualVersion(hs.clientHello.vers)
-	if !ok {
+	vers, ok := c.config.mutualVersion(hs.clientHello.vers)
+	// GMSSL 1.1 (0x0101) is the only protocol version the GMSSL handshake implements: a client_version that
+	// mutualVersion accepts as, or clamps to, any other version must not continue here with a GM suite.
+	if !ok || hs.clientHello.vers != VersionGMSSL || vers != VersionGMSSL {
 		c.sendAlert(alertProtocolVersion)
 		return false, fmt.Errorf("tls: client offered an unsupported, maximum protocol version of %x", hs.clientHello.vers)
 	}
+	c.vers = vers
 	c.haveVers = true
 
 	hs.hello = new(serverHelloMsg)
